@@ -139,7 +139,7 @@ pub fn run(ctx: &Ctx) -> ! {
                             if fired > 0 && changed {
                                 let key = format!("{}|{}|{}", w.programs[*prog].source, serde_json::to_string(faults).unwrap(), serde_json::to_string(&w.events[0]).unwrap());
                                 let fresh = ev.distinct.insert(fnv(key.as_bytes()));
-                                if fresh && samples.len() < 3 && (ev.distinct.len() % 97 == 1) {
+                                if fresh && samples.len() < 3 && (samples.is_empty() || ev.distinct.len() % 97 == 1) {
                                     samples.push(serde_json::json!({
                                         "program": w.programs[*prog].source, "event": w.events[0], "fault_plan": faults,
                                         "faulted_run": {"outcome": o.outcome, "target_ops": o.target_ops},
@@ -164,7 +164,8 @@ pub fn run(ctx: &Ctx) -> ! {
     let mut rng = Rng::new(crate::prng::mix(ctx.seed, 0xC17_3));
     let mut made = 0;
     let mut round = 0;
-    while made < n_multi && !ctx.out_of_time() && !usable.is_empty() {
+    // the first chunk always runs; later ones only while the budget lasts
+    while made < n_multi && (made == 0 || !ctx.out_of_time()) && !usable.is_empty() {
         let chunk = (n_multi - made).min(if ctx.quick() { 10_000 } else { 40_000 });
         let mut worlds = vec![];
         for j in 0..chunk {
